@@ -84,11 +84,38 @@ def check_smart_rotation(fx, R):
     cv = [f for f in fx.functions.values() if f.get('ctor') and f.get('cls') == NS + 'SmartRotation3D' and len(f['params']) == 1 and not f.get('copyctor')]
     iv = [f for f in fx.fn(rot.Q + 'init') if len(f['params']) == 1]
     ok = len(c3) == 1 and stmts_sx(c3[0]) == [('expr', ('.init', 'this', 'angleAroundXAxis', 'angleAroundYAxis', 'angleAroundZAxis'))] and any(i.get('delegating') for i in c3[0]['inits'])
-    R.form(ok, 'R2', 'SmartRotation3D(x,y,z)', 'constructor does not delegate to the table constructor and call init(x,y,z)', 'delegates + init(x,y,z)', fx.rel(c3[0]['loc']) if c3 else None, 'E-SIB')
+    if ok:
+        R.holds('R2', 'SmartRotation3D(x,y,z)', 'delegates + init(x,y,z)', fx.rel(c3[0]['loc']) if c3 else None, 'E-SIB')
     if len(cv) == 1:
         dl = [deep_unwrap(sx(i['e'])) for i in cv[0]['inits'] if i.get('delegating')]
         okv = len(dl) == 1 and dl[0][1:] == (('[]', 'angles', 0), ('[]', 'angles', 1), ('[]', 'angles', 2))
-        R.form(okv, 'R2', 'SmartRotation3D(angles)', 'vector constructor passes %s' % (dl,), '(angles[0], angles[1], angles[2]) = (x, y, z)', fx.rel(cv[0]['loc']), 'E-SIB')
+        if okv:
+            R.holds('R2', 'SmartRotation3D(angles)', '(angles[0], angles[1], angles[2]) = (x, y, z)', fx.rel(cv[0]['loc']), 'E-SIB')
+    # value-based: every constructor that takes angles leaves R_ = Rz Ry Rx of ITS arguments, with no entry taken from uninitialised storage
+    for cf in c3 + cv:
+        try:
+            cst = rot.reader(fx).run(cf)
+        except sym.Unsupported as u:
+            R.undecided('R2', 'SmartRotation3D(%d args):value' % len(cf['params']), str(u))
+            continue
+        for st_ in cst:
+            Mx = st_.fields.get(('this', 'R_'))
+            if not isinstance(Mx, sp.MatrixBase):
+                R.undecided('R2', 'SmartRotation3D(%d args):value' % len(cf['params']), 'R_ not readable')
+                continue
+            if len(cf['params']) == 3:
+                a_ = [sp.Symbol('arg:' + p['name'], real=True) for p in cf['params']]
+            else:
+                a_ = [sp.Symbol('%s[%d]' % (cf['params'][0]['name'], k_), real=True) for k_ in range(3)]
+            ax, ay, az = rot.canon(*a_)
+            res_ = sp.simplify(sp.Matrix(Mx) - az * ay * ax)
+            garbage = sorted({s_.name for s_ in sp.Matrix(Mx).free_symbols if s_ not in a_})
+            inst_ = 'SmartRotation3D(%s):value' % ('x,y,z' if len(cf['params']) == 3 else 'angles')
+            if garbage:
+                R.violated('R2', inst_, 'after this constructor R_ depends on %s: entries of the elementary tables that no constructor on this path initialises (fixed-size Eigen matrices are not '
+                           'zero-initialised, init() writes only the angle-dependent entries), so the matrix is not the rotation of the angles, nor a rotation at all' % garbage[:6], fx.rel(cf['loc']), 'E-STATE')
+            else:
+                alg.check_zero(R, res_, 'R2', inst_, 'R_ - Rz Ry Rx = %s for the constructor arguments' % (res_.tolist(),), 'R_ = Rz Ry Rx of the constructor arguments', fx.rel(cf['loc']), domain=ANGLE_DOMAIN[0])
     if len(iv) == 1:
         okv = stmts_sx(iv[0]) == [('expr', ('.init', 'this', ('[]', 'angles', 0), ('[]', 'angles', 1), ('[]', 'angles', 2)))]
         R.form(okv, 'R2', 'SmartRotation3D::init(angles)', 'init(Vector) is %s' % (stmts_sx(iv[0]),), 'init(angles[0], angles[1], angles[2])', fx.rel(iv[0]['loc']), 'E-SIB')
@@ -522,6 +549,43 @@ def check_spherical(fx, R, S):
     except sym.Unsupported as u:
         R.undecided('R6', 'toSpherical<%s>' % S, str(u))
         return
+    if len(ps) > 1:
+        # several paths: each is tried on witness points of the quantifier (norm 1e-6 .. 1e6); a path taken there must return the point's
+        # own coordinates; the path generic points take gets the symbolic rule
+        generic = None
+        for st_ in ps:
+            desc = ' && '.join(('' if c_[2] else '!') + '(' + c_[0] + ')' for c_ in st_.cond)
+            reached, bad = 0, None
+            for rv in (sp.Rational(1, 10 ** 6), sp.Rational(1, 10 ** 5), sp.Rational(1, 10 ** 4), sp.Rational(1, 1000), sp.Integer(1), sp.Integer(10 ** 6)):
+                env = {r: rv, a: sp.Rational(7, 10), e: sp.Rational(11, 10)}
+                ok_ = True
+                for c_ in st_.cond:
+                    if not isinstance(c_[1], sp.Basic):
+                        continue
+                    v_ = c_[1].subs(env)
+                    if v_ not in (sp.true, sp.false) and hasattr(v_, 'lhs'):
+                        v_ = v_.func(sp.N(v_.lhs, 40), sp.N(v_.rhs, 40))
+                    if v_ not in (sp.true, sp.false):
+                        ok_ = None
+                        break
+                    if bool(v_) != c_[2]:
+                        ok_ = False
+                        break
+                if not ok_:
+                    continue
+                reached += 1
+                if rv == 1:
+                    generic = st_
+                rt = st_.ret if isinstance(st_.ret, dict) else None
+                rg = next((v for k_, v in (rt or {}).items() if k_.endswith('range_')), None)
+                if rg is None or abs(sp.N(sp.sympify(rg).subs(env), 30) - sp.N(rv, 30)) > sp.N(rv, 30) * sp.Float('1e-9'):
+                    bad = bad or (rv, rg)
+            if bad:
+                R.violated('R6', 'toSpherical:special-path', 'on the path [%s] a point of norm %s (the quantifier has norms from 1e-6) comes back with range %s: spherical -> Cartesian -> spherical is not the '
+                           'identity there [%s]' % (desc, sp.N(bad[0], 3), bad[1], S), fx.rel(ft['loc']), 'E-ORD')
+            elif reached == 0:
+                R.holds('R6', 'toSpherical<%s>:path[%s]' % (S, desc), 'not taken by any witness norm of the quantifier (1e-6 .. 1e6)', fx.rel(ft['loc']), 'E-ORD')
+        ps = [generic] if generic is not None else ps
     ret = ps[0].ret if len(ps) == 1 else None
     if not isinstance(ret, dict):
         R.undecided('R6', 'toSpherical<%s>' % S, 'result not readable: %s' % (ret,))
